@@ -259,7 +259,7 @@ def record_psf(optic, field, wl, N, Gs, rnd, npix=2, full=True, judge_all=False)
             pix.append((a, b))
     centre = psf[c, c] if (c < rows and c < cols) else float("nan")
     inten = np.asarray(p.data[0][0][1], float)
-    ev = {"kind": "psf", "N": int(N), "G": int(Gs), "w": root_cert(Gs),
+    ev = {"kind": "psf", "N": int(N), "G": int(Gs), "w": root_cert(Gs), "wa": angle_cert(2.0 * math.pi / Gs),
           "P": cplx(P), "M": reals(np.abs(P)),
           "rows": int(rows), "cols": int(cols),
           "img": reals(psf) if full else [], "all": bool(judge_all and full),
@@ -283,7 +283,7 @@ def record_fftmtf(optic, field, wl, N, Gs, pupil=True, ideal=False, view=True):
     m = G.quiet(FFTMTF, optic, [field], wl, N, Gs)
     tan = np.asarray(m.mtf[0][0], float)
     sag = np.asarray(m.mtf[0][1], float)
-    H = Gs // 2
+    H = Gs - Gs // 2          # samples at the non-negative frequencies (Gs may be odd)
     if not (np.all(np.isfinite(tan)) and np.all(np.isfinite(sag))):
         return None, "non-finite MTF (a ray of the pupil grid failed)"
     if view:
@@ -297,7 +297,7 @@ def record_fftmtf(optic, field, wl, N, Gs, pupil=True, ideal=False, view=True):
         ys = [np.asarray(l.get_ydata(), float) for l in lines[:2]]
         plt.close("all")
     else:   # the same statements view() executes
-        xs = [np.arange(Gs // 2) * m._get_mtf_units()] * 2
+        xs = [np.arange(Gs - Gs // 2) * m._get_mtf_units()] * 2
         ys = [tan, sag]
     ks = _dl_indices(N, min(H, len(tan)))
     axis_k = sorted(set([0, 1, 2, H // 2, H - 1]) & set(range(len(xs[0]))))
